@@ -381,7 +381,7 @@ func bodyOf(r Req) string {
 	case strings.HasPrefix(r.Body, "DELETE:"):
 		var b strings.Builder
 		b.WriteString("<Delete>")
-		for _, k := range strings.Split(strings.TrimPrefix(r.Body, "DELETE:"), ",") {
+		for _, k := range deleteKeys(r) {
 			b.WriteString("<Object><Key>")
 			xml.EscapeText(&b, []byte(k))
 			b.WriteString("</Key></Object>")
@@ -396,7 +396,13 @@ func deleteKeys(r Req) []string {
 	if !strings.HasPrefix(r.Body, "DELETE:") {
 		return nil
 	}
-	return strings.Split(strings.TrimPrefix(r.Body, "DELETE:"), ",")
+	ks := strings.Split(strings.TrimPrefix(r.Body, "DELETE:"), ",")
+	for i, k := range ks {
+		if k == "LONG" { // placeholder: a key the server rejects as too long (the empty key is the other invalid one)
+			ks[i] = strings.Repeat("x", 1025)
+		}
+	}
+	return ks
 }
 
 func build(r Req, upload string) (host, target string, ok bool) {
@@ -966,6 +972,15 @@ func genQuery(t *rapid.T) [][2]string {
 }
 
 func genReq(t *rapid.T) Req {
+	// one request in eight is a well-formed multi-object delete (the unstructured generator below reaches
+	// that shape too rarely for the per-entry hook to be exercised); batches include keys the server
+	// rejects as invalid ("" and an over-long key) in front of, between and behind valid ones
+	if rapid.IntRange(0, 7).Draw(t, "multiDelete") == 3 {
+		ks := rapid.SliceOfN(rapid.SampledFrom([]string{"a", "tagged", "dir/b", "zz/top", "t-none", "missing", "", "LONG", "a", "tagged"}), 1, 6).Draw(t, "mdk")
+		return Req{Method: "POST", Host: rapid.SampledFrom([]string{"api", "api", "vhost"}).Draw(t, "mdHost"),
+			Bucket: rapid.SampledFrom([]string{bkt0, bkt0, bkt1}).Draw(t, "mdBucket"),
+			Query:  [][2]string{{"delete", ""}}, Body: "DELETE:" + strings.Join(ks, ",")}
+	}
 	r := Req{}
 	r.Method = rapid.SampledFrom([]string{"GET", "GET", "HEAD", "PUT", "PUT", "POST", "DELETE", "DELETE", "OPTIONS", "PATCH"}).Draw(t, "method")
 	r.Host = rapid.SampledFrom([]string{"api", "api", "api", "api", "vhost", "site", "custom"}).Draw(t, "host")
@@ -1026,7 +1041,7 @@ func genReq(t *rapid.T) Req {
 		case has("tagging"):
 			r.Body = "TAGGING"
 		case has("delete"):
-			ks := rapid.SliceOfNDistinct(rapid.SampledFrom([]string{"a", "tagged", "dir/b", "zz/top", "t-none", "missing"}), 1, 4, func(s string) string { return s }).Draw(t, "dk")
+			ks := rapid.SliceOfNDistinct(rapid.SampledFrom([]string{"a", "tagged", "dir/b", "zz/top", "t-none", "missing", "", "LONG", "a", "tagged", "dir/b"}), 1, 5, func(s string) string { return s }).Draw(t, "dk")
 			r.Body = "DELETE:" + strings.Join(ks, ",")
 		case has("versioning"):
 			r.Body = "VERSIONING"
